@@ -195,6 +195,8 @@ exec_op(const char * l, int ctx)
 		rc = netbuf_write_write(W, buf, (size_t)a);
 		__real_free(buf);
 		vt_begin("nb_write"); vt_int("len", a); vt_int("rc", rc); vt_int("woff", written); vt_int("ctx", ctx); common(); vt_end();
+		if (rc != 0)
+			wdead = 1;	/* a failed buffered write is not retried (the interface promises nothing about that) */
 		written += a;
 	} else if (strcmp(op, "reserve") == 0) {
 		if (W == NULL || wdead || reserved != NULL || sscanf(l, "%*s %ld", &a) != 1 || a < 0)
